@@ -96,6 +96,11 @@ def get_splicer_based_on_suffix(name, out):
     elif fileExtension in [".lua"]:
         d = out.setdefault("lua", {})
         get_splicers(name, d)
+    else:
+        raise RuntimeError(
+            "Do not know what to do with file '{}': "
+            "expected a YAML file (.yaml) or a splicer file "
+            "(.f .f90 .c .h .cpp .hpp .cxx .hxx .cc .C .py .lua)".format(name))
 
 
 # def print_tree(out):
